@@ -258,10 +258,29 @@ def compile_ok(wb, scratch, sparse):
     return c14.compile_oracle(comp) and comp["csv"][0] == "ok"
 
 
+def _least_failing(lo, hi, fails_at, probes=14):
+    """fails_at(hi) is known to hold; bisect for the least n in (lo, hi] with fails_at(n) (exact when failing is monotone in n)"""
+    while hi - lo > 1 and probes > 0:
+        mid = (lo + hi) // 2
+        probes -= 1
+        if fails_at(mid):
+            hi = mid
+        else:
+            lo = mid
+    return hi
+
+
 def minimise(wb, fails, drop_sheets=True):
-    """fails(wb) -> bool.  Drop sheets, then shrink every run of rows without content to the shortest failing length."""
+    """fails(wb) -> bool.  Drop sheets (one by one; a long list of sheets: the shortest failing prefix), shrink every run of
+    rows without content to the shortest failing length, then cut every long sheet to its shortest failing prefix of rows."""
     cur = wb
-    if len(cur) > 1 and drop_sheets:
+    if len(cur) > 6 and drop_sheets:
+        names = list(cur)
+        k = _least_failing(0, len(names), lambda n: fails({x: cur[x] for x in names[:n]}))
+        cand = {x: cur[x] for x in names[:k]}
+        if fails(cand):
+            cur = cand
+    if 1 < len(cur) <= 6 and drop_sheets:
         for n in list(cur):
             if len(cur) == 1:
                 break
@@ -273,29 +292,50 @@ def minimise(wb, fails, drop_sheets=True):
         for idx, r in enumerate(spec[n][1]):
             if not (len(r) == 2 and r[0] == BLANK and isinstance(r[1], int)) or r[1] <= 1:
                 continue
-            lo, hi = 0, r[1]           # fails at hi; find the least failing length in (lo, hi]
-            probes = 0
-            while hi - lo > 1 and probes < 14:
-                mid = (lo + hi) // 2
-                r[1] = mid
-                probes += 1
-                if fails(unrle(spec)):
-                    hi = mid
-                else:
-                    lo = mid
-            r[1] = hi
+            top = r[1]
+
+            def at(length, r=r):
+                r[1] = length
+                return fails(unrle(spec))
+            r[1] = _least_failing(0, top, at)
     out = unrle(spec)
-    return out if fails(out) else cur
+    if fails(out):
+        cur = out
+    for n in list(cur):
+        h, rows = cur[n]
+        if len(rows) > 50:
+            k = _least_failing(0, len(rows), lambda m_: fails({**cur, n: (h, rows[:m_])}))
+            cand = {**cur, n: (h, rows[:k])}
+            if fails(cand):
+                cur = cand
+    return cur
 
 
 def summarise(res):
+    """per format: the error, or per sheet its size and the text cells of its last row; when there are many sheets only
+    those on which the formats differ (and the number of sheets each format has)"""
+    names = []
+    for r in res.values():
+        if r[0] == "ok":
+            names += [n for n in r[1] if n not in names]
+    show = names
+    if len(names) > 4:
+        def view(f, n):
+            r = res[f]
+            return r[1].get(n) if r[0] == "ok" else None
+        show = [n for n in names if len({repr(view(f, n)) for f in res}) > 1][:4]
     out = {}
     for f, r in res.items():
         if r[0] != "ok":
             out[f] = r[:3]
         else:
             out[f] = {n: f"{len(t[0] or [])} columns, {len(t[1])} rows; last row (cells with text, by column) "
-                         f"{ {j: c for j, c in enumerate(t[1][-1]) if c} if t[1] else None!r}"[:200] for n, t in r[1].items()}
+                         f"{ {j: c for j, c in enumerate(t[1][-1]) if c} if t[1] else None!r}"[:200] for n, t in r[1].items() if n in show}
+            if len(names) > 4:
+                out[f]["<sheets>"] = len(r[1])
+            for n in show:
+                if n not in r[1]:
+                    out[f][n] = "<no such sheet>"
     return out
 
 
@@ -435,14 +475,25 @@ def _report(ctx, wb, sparse, scratch, res, compiled, quiet):
     v = ctx.v
     check = compile_ok if compiled else read_ok
     cut = with_runs_cut(wb, 1)
+    why = ("the same workbook with every run of rows without content cut to one row reads alike" if cut != wb else
+           "no run of rows without content longer than one: the size of the workbook itself")
     if cut != wb and not check(cut, scratch, sparse):
-        # the runs are not the cause: the classes of harness/c14.py
+        # the runs are not the cause: the classes of harness/c14.py — unless the shortest failing part of the workbook is
+        # still large (many sheets / rows / columns): then it is the size
         def oracle_on(w2):
             return check(w2, scratch, sparse)
-        key = c14.classify(wb, oracle_on)
-        v.failing_input(key, f"formats disagree on a workbook of shape [{describe(wb)}] (also with every run of rows without content cut to one "
-                             f"row): {summarise(res) if not compiled else {f: r[0] for f, r in res.items()}!r}"[:1500],
-                        dict(fn="shape", spec=rle(wb), sparse=sparse, compile=compiled))
+        key = c14.classify(cut, oracle_on)
+        small = cut
+        if key == c14.K_GENERIC and not quiet:
+            small = minimise(cut, lambda w2: not check(w2, scratch, sparse), drop_sheets=not compiled)
+            if len(small) > 6 or any(len(rows) > 50 or len(h) > 20 for (h, rows) in small.values()):
+                key = K_SHAPE_COMPILE if compiled else K_SHAPE
+        r2, d2 = c14.read_all_formats(small, scratch, sparse=sparse)
+        shutil.rmtree(d2["dir"], ignore_errors=True)
+        v.failing_input(key, f"formats disagree on a workbook of shape [{describe(small)}] (xlsx cells without text "
+                             f"{'not written' if sparse else 'written as empty strings'}; every run of rows without content already cut to "
+                             f"one row): {summarise(r2)!r}"[:1500],
+                        dict(fn="shape", spec=rle(small), sparse=sparse, compile=compiled))
         return 1
     # (the sheets of a compiled workbook refer to each other: only the runs are shrunk there)
     small = wb if quiet else minimise(wb, lambda w2: not check(w2, scratch, sparse), drop_sheets=not compiled)
@@ -455,7 +506,7 @@ def _report(ctx, wb, sparse, scratch, res, compiled, quiet):
             summary = {f: (r[0], (f"{sum(len(fl.get('nodes', [])) for fl in r[1].get('flows', []))} nodes" if r[0] == "ok" else r[1:]))
                        for f, r in c2.items()}
         v.failing_input(K_SHAPE_COMPILE, f"create_flows differs between formats on a workbook of shape [{describe(small)}] "
-                                         f"(xlsx cells without text {'not written' if sparse else 'written as empty strings'}): {summary!r}"[:1500],
+                                         f"(xlsx cells without text {'not written' if sparse else 'written as empty strings'}; {why}): {summary!r}"[:1500],
                         dict(fn="shape", spec=rle(small), sparse=sparse, compile=True))
     else:
         r2 = res
@@ -463,8 +514,7 @@ def _report(ctx, wb, sparse, scratch, res, compiled, quiet):
             r2, d2 = c14.read_all_formats(small, scratch, sparse=sparse)
             shutil.rmtree(d2["dir"], ignore_errors=True)
         v.failing_input(K_SHAPE, f"the readers disagree on a workbook of shape [{describe(small)}] (xlsx cells without text "
-                                 f"{'not written' if sparse else 'written as empty strings'}; the same workbook with every run of rows "
-                                 f"without content cut to one row reads alike): {summarise(r2)!r}"[:1500],
+                                 f"{'not written' if sparse else 'written as empty strings'}; {why}): {summarise(r2)!r}"[:1500],
                         dict(fn="shape", spec=rle(small), sparse=sparse, compile=False))
     return 1
 
